@@ -841,6 +841,10 @@ def wire_oracle(events, obs):
                     if rn[0] != cur[0]:
                         problems.append((k, "wire-relogin-rnfr-carried", f"RNTO {arg!r} as {cur[0]} renames {p!r}, the RNFR target of {rn[0]}"))
                     continue
+                if v == "RNTO" and name == "rename" and j == 0 and rn is not None:
+                    problems.append((k, "wire-rename-source", f"RNTO {arg!r} as {cur[0]} (cwd {cwd!r}) renames {p!r}; the pending RNFR named {rn[1]!r} "
+                                     "(= base + normalize(cwd at the RNFR, its argument))"))
+                    continue
                 problems.append((k, "wire-foreign-path", f"{verb} {arg!r} as {cur[0]} (base {cur[2]!r}, cwd {cwd!r}): backend call {name}({p!r}); the request addresses {T!r}"))
         renamed = [a for n, a in calls if n == "rename"]
         if v == "CWD":
@@ -891,6 +895,15 @@ def gen_wire_history(rng):
         if r < 0.27:
             verb = rng.choice(["PWD", "CDUP", "TYPE"])
             ev.append((verb, "I" if verb == "TYPE" else "", None))
+            continue
+        if r < 0.37:
+            # a rename whose source is named relatively, with the working directory moved before the RNTO: the source
+            # was supplied by the RNFR and means normalize(cwd AT THE RNFR, arg), whatever the cwd is at the RNTO
+            ev.append(("CWD", rng.choice(["/", "d", "/d", "x", "/e", ".."]), None))
+            ev.append(("RNFR", rng.choice(["f", "g", "d/g", "d/f", "../f", "e"]), None))
+            for _ in range(rng.randint(1, 2)):
+                ev.append(rng.choice([("CWD", "/", None), ("CWD", "d", None), ("CWD", "/d", None), ("CWD", "x", None), ("CDUP", "", None), ("CWD", "/e", None)]))
+            ev.append(("RNTO", rng.choice(["moved", "/moved", "/d/moved", "../moved2", "/e/m"]), None))
             continue
         verb = rng.choice(PATH_VERBS)
         arg = rng.choice(WIRE_ARGS)
@@ -1096,6 +1109,11 @@ def run_witness(flavour, base, cwd, s):
 WIRE_CORPUS = [
     [("USER", "alice", None), ("PASS", "a", None), ("RNFR", "/f", None), ("USER", "dave", None), ("PASS", "d", None), ("RNTO", "/taken", None), ("MLST", "/f", None)],
     [("USER", "alice", None), ("PASS", "a", None), ("RNFR", "d/g", None), ("USER", "nobody", None), ("USER", "carol", None), ("PASS", "c", None), ("RNTO", "g2", None)],
+]
+WIRE_CORPUS += [
+    [("USER", "alice", None), ("PASS", "a", None), ("CWD", "d", None), ("RNFR", "f", None), ("CWD", "/", None), ("RNTO", "/e/moved", None)],
+    [("USER", "bob", None), ("PASS", "b", None), ("CWD", "/x", None), ("RNFR", "f", None), ("CDUP", "", None), ("RNTO", "d/moved", None)],
+    [("USER", "root", None), ("PASS", "r", None), ("CWD", "/alice/d", None), ("RNFR", "g", None), ("CWD", "/bob/d", None), ("RNTO", "/alice/e/g", None)],
 ]
 WIRE_WITNESSES = {
     "wire-stor-root-parent-probe": [("USER", "alice", None), ("PASS", "a", None), ("PASV", "", None), (ftpsim.DATACONN, "", None), ("STOR", "/", b"x")],
